@@ -10,16 +10,16 @@ CHECKS = {
  'C13': {
   'level': 'other',
   'explanation': 'PARTIAL (see DESIGN.md section 4, C13).  (a) round trip: for every description over a pool of 2 states x 2-3 ranked symbols (presence bit per declared symbol, declared state, final state and transition) ParseString(Serialize(d)) returns the same final states and transitions (the declaration lists and the automaton name are not part of the property and are not compared), and LoadFromAutDesc + DumpToAutDesc through the explicit encoding keeps rules and final states under the same names; number<->text conversion (Convert::ToString/FromString = ostringstream/istringstream) is executed through stubs (engine/rt/convert_models.cc), everything else is the real serializer, parser and loader code.  (b) robustness: TimbukParser::ParseString (src/timbuk_parser-nobison.cc: parse_timbuk, trim, split_delim, read_word, contains_whitespace, parse_colonned_token without numbers) executed symbolically on texts consisting of one of three concrete, colon-free heads followed by K symbolic characters drawn from the 8-character alphabet {blank, newline, ( ) , - > q}: for every such text the parser returns or throws (the exception path ends at __cxa_throw), without any memory-safety / UB violation, and every transition of a returned description has a non-empty symbol and a non-empty blank-free right-hand side.  NOT covered: the iostream code behind Convert (stubbed), the loaders of the finite-automaton and BDD classes, names other than those of the pool, arbitrary bytes outside the 8-character alphabet, texts with more than K free characters.',
-  'bounds': {'quick': 'robustness: 8 text frames (the free part sits in the Ops, Automaton, States, Final States line, on a line of its own, at the start of a transition, inside a transition, between a rule symbol and its arrow) x K in {3,5,6,8} free characters from a 16-character alphabet (all six white-space characters, parentheses, comma, minus, greater-than, colon, a digit, two declared names, an undeclared letter): 12, 20, 24 and 32 free bits per query; round trip and load/dump: 2 states x 2 symbols (12 bits)', 'thorough': 'robustness: the 8 frames x K in {3,5,6,8,9,10} (up to 40 free bits); round trip additionally 2 states x 3 symbols incl. a binary one (15 bits)'},
+  'bounds': {'quick': 'robustness: 8 text frames (the free part sits in the Ops, Automaton, States, Final States line, on a line of its own, at the start of a transition, inside a transition, between a rule symbol and its arrow) x K in {3,5,6,8} free characters from a 16-character alphabet (all six white-space characters, parentheses, comma, minus, greater-than, colon, a digit, two declared names, an undeclared letter): 12, 20, 24 and 32 free bits per query; round trip and load/dump: 2 states x 2 symbols (12 bits)', 'thorough': 'robustness: the 8 frames x K in {3,5,6,8} plus K = 9 for the five frames whose heads keep the diagrams small (up to 36 free bits; K = 9 with the other three frames and K = 10 exhaust 24 GB and are outside the claim); round trip additionally 2 states x 3 symbols incl. a binary one (15 bits)'},
   'outside': 'see explanation: round trip, serializer, loaders, numbers after a colon, bytes outside the alphabet, longer free parts',
   'harnesses': [
     # "symbolic" load/dump mode of the bottom-up BDD encoding (known finding C13-1)
     {'name': 'symdump', 'src': 'harness/C13/symdump.cc', 'tus': ['timbuk_parser-nobison', 'timbuk_serializer', 'bdd_bu_tree_aut', 'bdd_bu_tree_aut_core', 'symbolic_tree_aut_base_core', 'sym_var_asgn', 'symbolic', 'util', 'convert'],
      'configs': {'quick': [{'NST': 2, 'LEAFMASK': '0xfful', 'UNMASK': '0x0ul'}, {'NST': 2, 'LEAFMASK': '0x55ul', 'UNMASK': '0x9999ul'}, {'NST': 2, 'LEAFMASK': '0x0ful', 'UNMASK': '0x00fful', 'VIA_TEXT': 1}],
-                 'thorough': [{'NST': 2, 'LEAFMASK': '0xfful', 'UNMASK': '0x0ul'}, {'NST': 2, 'LEAFMASK': '0x55ul', 'UNMASK': '0x9999ul'}, {'NST': 2, 'LEAFMASK': '0x0ful', 'UNMASK': '0x00fful', 'VIA_TEXT': 1}, {'NST': 2, 'LEAFMASK': '0xfful', 'UNMASK': '0xfffful', '_time': 2500}]},
+                 'thorough': [{'NST': 2, 'LEAFMASK': '0xfful', 'UNMASK': '0x0ul'}, {'NST': 2, 'LEAFMASK': '0x55ul', 'UNMASK': '0x9999ul'}, {'NST': 2, 'LEAFMASK': '0x0ful', 'UNMASK': '0x00fful', 'VIA_TEXT': 1}]},      # (all 16 unary rules, UNMASK=0xffff: out of memory)
      'selftest_config': {'NST': 2, 'LEAFMASK': '0xfful', 'UNMASK': '0x0ul'}, 'selftests': ['VS_SELFTEST_1']},
     {'name': 'parse', 'src': 'harness/C13/parse.cc', 'tus': ['timbuk_parser-nobison'],
-     'configs': {'quick': [P(k, h) for k in (3, 5, 6, 8) for h in range(8)], 'thorough': [P(k, h, _time=2500, _mem_gb=24) for k in (3, 5, 6, 8, 9, 10) for h in range(8)]},
+     'configs': {'quick': [P(k, h) for k in (3, 5, 6, 8) for h in range(8)], 'thorough': [P(k, h, _time=2500, _mem_gb=24) for k in (3, 5, 6, 8) for h in range(8)] + [P(9, h, _time=2500, _mem_gb=24) for h in (0, 1, 5, 6, 7)]},      # (9 free characters with the heads 2, 3, 4 and 10 characters: out of memory at 24 GB - outside the claim)
      'selftest_config': P(4, 0), 'selftests': ['VS_SELFTEST_1']},
     {'name': 'roundtrip', 'src': 'harness/C13/roundtrip.cc', 'tus': ['timbuk_parser-nobison', 'timbuk_serializer'],
      'configs': {'quick': [{'NST': 2, 'NSY': 2}, {'NST': 2, 'NSY': 2, 'SHARED_NAMES': None}], 'thorough': [{'NST': 2, 'NSY': 2}, {'NST': 2, 'NSY': 2, 'SHARED_NAMES': None}, {'NST': 2, 'NSY': 3, '_time': 2500}]},
